@@ -159,6 +159,11 @@ def load_api(only_auth=False):
                     mem = C.load_metadata_from_file(fn)
                 elif op[0] == "replace":
                     mem = op[1]
+                elif op[0] == "trywrite":
+                    try:
+                        C.write_metadata_to_file(op[1], fn)
+                    except (TypeError, ValueError, RecursionError):
+                        pass
                 elif op[0] == "prefill":
                     with open(fn, "wb") as f:
                         f.write(op[1])
